@@ -502,6 +502,15 @@ def long_cases(rng, thorough):
                     parts.append(rng.choice(unsup) if i == bad else rng.choice(seqs))
                     parts.append("plain " * 40 if rng.random() < 0.03 else rng.choice(texts))
                 out.append("".join(parts))
+    # single sequences with many parameters (supported or not, some with empty parameters = D28 shape)
+    for n in (15, 16, 17, 18, 40, 300):
+        for final in "mH":
+            ps = [str(rng.choice([0, 1, 4, 31, 44, 7, 39, 5, 2])) for _ in range(n)]
+            out.append("a\x1b[" + ";".join(ps) + final + "b")
+            out.append("\x1b[1mx\x1b[" + ";".join(ps + ["38"]) + final + "y\x1b[0m")
+            qs = list(ps)
+            qs[n // 2] = ""
+            out.append("a\x1b[" + ";".join(qs) + final + "b\x1b[31mc")
     # two lines of pygments-style bright-colour output
     out.append("".join("\x1b[9%dm%s\x1b[39m " % (i % 8, w) for i, w in enumerate("def f ( x ) : return x + 1 # twenty tokens of code in bright colours".split())) + "\n")
     return out
